@@ -46,9 +46,10 @@
 using namespace xalanc;
 
 // ----------------------------------------------------------------------------- mutex interposition
-static __thread int t_locks = 0;     // mutexes held by this thread
-static __thread int t_inMutex = 0;   // inside an interposed mutex operation
+static __thread volatile int t_locks = 0;     // mutexes held by this thread
+static __thread volatile int t_inMutex = 0;   // inside an interposed mutex operation
 static __thread int t_id = 0;        // 0 = main thread, 1..N workers
+static __thread volatile int t_canary = 0;    // the harness' own probe store (self-check of the observation)
 
 typedef int (*mutex_fn)(pthread_mutex_t*);
 static mutex_fn real_lock, real_trylock, real_unlock;
@@ -93,26 +94,26 @@ static inline pthread_mutex_t* shadowOf(pthread_mutex_t* m) {
 
 extern "C" int pthread_mutex_lock(pthread_mutex_t* m) {
     if (!real_lock) resolveMutexFns();
-    ++t_inMutex;
+    t_inMutex = t_inMutex + 1;
     int r = real_lock(shadowOf(m));
-    --t_inMutex;
-    if (r == 0) { ++t_locks; g_lockCalls.fetch_add(1, std::memory_order_relaxed); }
+    t_inMutex = t_inMutex - 1;
+    if (r == 0) { t_locks = t_locks + 1; g_lockCalls.fetch_add(1, std::memory_order_relaxed); }
     return r;
 }
 extern "C" int pthread_mutex_trylock(pthread_mutex_t* m) {
     if (!real_trylock) resolveMutexFns();
-    ++t_inMutex;
+    t_inMutex = t_inMutex + 1;
     int r = real_trylock(shadowOf(m));
-    --t_inMutex;
-    if (r == 0) ++t_locks;
+    t_inMutex = t_inMutex - 1;
+    if (r == 0) t_locks = t_locks + 1;
     return r;
 }
 extern "C" int pthread_mutex_unlock(pthread_mutex_t* m) {
     if (!real_unlock) resolveMutexFns();
-    ++t_inMutex;
+    t_inMutex = t_inMutex + 1;
     int r = real_unlock(shadowOf(m));
-    --t_inMutex;
-    if (r == 0 && t_locks > 0) --t_locks;
+    t_inMutex = t_inMutex - 1;
+    if (r == 0 && t_locks > 0) t_locks = t_locks - 1;
     return r;
 }
 
@@ -214,6 +215,7 @@ static void onSegv(int sig, siginfo_t* si, void* ucv) {
         errno = savedErrno;
         return;   // the mutex' own state word, written by the lock/unlock call itself
     }
+    if (t_canary) { errno = savedErrno; return; }
     void* raw[MAXFR + 8];
     int n = backtrace(raw, MAXFR + 8);
     void* rip = (void*)uc->uc_mcontext.gregs[REG_RIP];
@@ -498,6 +500,8 @@ int main(int argc, char** argv) {
     std::string err;
     if (!buildInputs(*A, arena, kind, xsl, xml, g_in, err, markEnd)) { fprintf(stderr, "build failed: %s\n", err.c_str()); return 3; }
     for (int o = 0; o < O_FRESH; ++o) printf("{\"e\":\"Build\",\"obj\":\"%s\",\"bytes\":%zu}\n", g_objName[o], g_objEnd[o] - (o ? g_objEnd[o - 1] : 0));
+    // "fresh" = what the shared objects' memory manager will hand out from now on (lazily created parts of them)
+    printf("{\"e\":\"Build\",\"obj\":\"fresh\",\"bytes\":%zu}\n", g_cap - g_top.load());
 
     // ---- Freeze
     installHandlers();
@@ -506,8 +510,18 @@ int main(int argc, char** argv) {
         if (mprotect(g_base, g_cap, PROT_READ) != 0) { perror("mprotect"); return 2; }
         g_frozen.store(1);
     }
-    for (int o = 0; o < O_FRESH; ++o) printf("{\"e\":\"Freeze\",\"obj\":\"%s\"}\n", g_objName[o]);
-    printf("{\"e\":\"Freeze\",\"obj\":\"fresh\"}\n");   // whatever the shared objects' manager hands out from now on
+    for (int o = 0; o < O_COUNT; ++o) printf("{\"e\":\"Freeze\",\"obj\":\"%s\"}\n", g_objName[o]);
+    if (!noFreeze) {
+        // self-check: a probe store into the frozen region must be seen, and the mutex interposition must be alive
+        long before = g_faults.load();
+        t_canary = 1;
+        *(volatile char*)(g_base + g_objEnd[O_TRANSFORMER] - 1) = *(volatile char*)(g_base + g_objEnd[O_TRANSFORMER] - 1);
+        t_canary = 0;
+        if (g_faults.load() != before + 1 || g_lockCalls.load() == 0) {
+            fprintf(stderr, "xv_c07: observation self-check failed (faults %ld -> %ld, lock calls %ld)\n", before, g_faults.load(), g_lockCalls.load());
+            return 4;
+        }
+    }
 
     // ---- threads
     pthread_barrier_init(&g_barrier, nullptr, nthreads);
